@@ -247,8 +247,16 @@ returned, whatever `bs` contains. -/
 theorem c07_no_delivery_after_unsubscribe (c : SubCfg) (topic : Topic) (as bs : List Act) (s : St)
     (h : run c topic St.init (as ++ Act.unsubscribe :: bs) = some s) :
     s.w.log.Sublist ((brokerDeliver topic (pubsBeforeUnsub as)).filterMap (deliver c)) ∧
-    s.unsubReturned = true ∨ s.w.log.Sublist ((brokerDeliver topic (pubsBeforeUnsub as)).filterMap (deliver c)) := by
-  right
+    s.unsubReturned = true := by
+  refine ⟨?_, ?_⟩
+  case refine_2 =>
+    rw [run_append] at h
+    cases h1 : run c topic St.init as with
+    | none => rw [h1] at h; cases h
+    | some s1 =>
+      rw [h1] at h
+      simp only [Option.bind, run, step] at h
+      exact run_unsubReturned c topic bs _ s h rfl
   obtain ⟨e, n, hl, ha, hsub, _⟩ := run_ext c topic _ St.init s h
   have hacc := run_accepted c topic _ St.init s h rfl
   rw [pubsBeforeUnsub_append_unsub] at hacc
